@@ -211,6 +211,7 @@ def collision_pairs(res):
     T = 'def exp {{ splitters: uid return {0} weighted 1, "z" weighted 1 }}'
     twins = [('"http://old.example/a"', '"http://new.example/b"'), ('"img/*.png"', '"img/*.jpg"'), ('"x//y"', '"x//z"'), ('"p q"', '"p  q"'), ('"p\x0cq"', '"p\x0c q"'),
              ('"p\rq"', '"p\r q"'), ('"p\u2028q"', '"p\x85q"'), ('"Pq"', '"pq"'), ('"q "', '"q"'), ("'s'", '"s"'), ('"a\tb"', '"a b"'), ('"é"', '"e\u0301"'),
+             ('"home page"', '"homepage"'), ('"a b"', '"ab"'), ('" "', '""'), ('"x\ty"', '"xy"'), ('"q"', "'q '"), ('"it\'s"', '"its"'), ('"pricing\'"', '"pricing"'),
              ('"1"', "1"), ("1", "1.0"), ('"http://old.example/a"', '"http://old.example/a'), ('"x//y"', '"x//y'), ('"p\x0cq"', '"p\x0cq')]
     for a, b in twins:
         units.append((f"twin:{a}|{b}", T.format(a), T.format(b)))
